@@ -35,6 +35,7 @@ theorem nsOf_zero_of_minted {P : List Pend} {next : Nat} (h : ∀ p ∈ P, ∀ i
     | run a b => simp [hk] at hs
     | del i f => simp [hk] at hs
     | cls i => simp [hk] at hs
+    | upl a b c => simp [hk] at hs
   · unfold nrOf
     rw [List.length_eq_zero_iff, List.filter_eq_nil_iff]
     intro p hp hs
@@ -44,6 +45,7 @@ theorem nsOf_zero_of_minted {P : List Pend} {next : Nat} (h : ∀ p ∈ P, ∀ i
     | run a b => simp [hk] at hs; have := h p hp a (by simp [sidOf, hk]); omega
     | del i f => simp [hk] at hs
     | cls i => simp [hk] at hs
+    | upl a b c => simp [hk] at hs
 
 /-- **a POST without a session id** -/
 theorem sim_append_op {cfg : Cfg} {d d' : RState} {m : Mon} {o : Obs} (hs : Sim cfg d m) {op : Op} {r : Req}
@@ -52,7 +54,7 @@ theorem sim_append_op {cfg : Cfg} {d d' : RState} {m : Mon} {o : Obs} (hs : Sim 
     (hmo : modelOp d op = some { st := st1, status := status, hdr := hdr, hang := false, done := [], log := log, pend := d.pend, nslow := ns', nasync := na', released := d.released })
     (hset : settle st1 = st2) (htbl : st2.tbl = d.st.tbl ++ [E]) (hcfg : st2.cfg = d.st.cfg) (hnext : st2.next = d.st.next + 1)
     (hnow : st2.now = d.st.now) (hfl : st2.faults = d.st.faults) (hinv : Inv st2)
-    (hEid : E.id = d.st.next) (hEo : E.owner = r.user.user) (hEok : EOk cfg d.st.now 0 0 E)
+    (hEid : E.id = d.st.next) (hEo : E.owner = r.user.user) (hEok : EOk cfg d.st.now 0 0 E) (hEu : E.upl = 0)
     (hE : (E.removed = false ∧ E.closing = false ∧ (cfg.timeout ≠ 0 → E.timer = .armed (d.st.now + cfg.timeout)) ∧
             r.kind = some .init ∧ status.accepted2xx = true ∧ hdr = some (sname d.st.next) ∧ r.racy = false) ∨
           (E.removed = true ∧ (hdr = none ∨ hdr = some (sname d.st.next))))
@@ -95,6 +97,7 @@ theorem sim_append_op {cfg : Cfg} {d d' : RState} {m : Mon} {o : Obs} (hs : Sim 
       cases hkind : p.kind with
       | slow a b => rfl
       | run a b => rfl
+      | upl a b c => rfl
       | del i f =>
         rw [hkind] at h0
         have hi := hs.pok.minted p hp i (by simp [sidOf, hkind])
@@ -193,11 +196,11 @@ theorem sim_append_op {cfg : Cfg} {d d' : RState} {m : Mon} {o : Obs} (hs : Sim 
           have : monFind [anew] (sname d.st.next) = some anew := by simp [monFind, anew]
           rw [this]
           rcases hE with ⟨_, hcl, htm, _⟩ | ⟨hr, _⟩
-          · refine ⟨rfl, (by intro h; cases h), ?_, (by intro _; exact ⟨rfl, rfl⟩), ?_⟩
+          · refine ⟨rfl, (by intro h; cases h), ?_, (by intro _; exact ⟨by rw [hEu], rfl⟩), ?_⟩
             · constructor
               · intro _; exact ⟨hrm, hcl⟩
               · intro _; rfl
-            · intro _ _ hT; rw [htm hT]; show _ = Timer.armed (m.now + cfg.timeout); rw [hs.now]
+            · intro _ _ _ hT; rw [htm hT]; show _ = Timer.armed (m.now + cfg.timeout); rw [hs.now]
           · rw [hr] at hrm; cases hrm
   have heok2 : ∀ e' ∈ st2.tbl, EOk cfg st2.now (nsOf d.pend e'.id) (nrOf d.pend e'.id) e' := by
     intro e he; rw [htbl] at he; rw [hnow]
@@ -216,7 +219,7 @@ theorem sim_append_op {cfg : Cfg} {d d' : RState} {m : Mon} {o : Obs} (hs : Sim 
   constructor
   · apply monStep_viol_none
     · rw [hexp, hreq]; exact hans
-    · rw [hreq]; exact hlog
+    · rw [chkLogOp_eq (by intro n f h; rw [h] at hreq; cases hreq), hreq]; exact hlog
     · rw [hexp, hreq]
       cases hh : hdr with
       | none => rfl
@@ -232,10 +235,11 @@ theorem sim_append_op {cfg : Cfg} {d d' : RState} {m : Mon} {o : Obs} (hs : Sim 
       rw [hbd, hnotick, hreq, hscan]; exact htc.2.2.1
     · exact htc.2.2.2.1
     · rw [hreq]; exact hnoid
+    · exact chkClose_model hinv (fun e he => ⟨_, _, heok2 e he⟩)
   · obtain ⟨e1, e2, e3, e4, e5, e6, e7⟩ := monStep_mon cfg m op
-      { status := status, hdr := hdr, hang := false, done := [], map := showMap st2, srv := showSrv st2, log := log }
+      { status := status, hdr := hdr, hang := false, done := [], map := showMap st2, srv := showSrv st2, log := log, stale := showStale st2 }
     -- the final table: reaped, plus the id of a failed initialize
-    have hfin : (monStep cfg m op { status := status, hdr := hdr, hang := false, done := [], map := showMap st2, srv := showSrv st2, log := log }).mon.tbl =
+    have hfin : (monStep cfg m op { status := status, hdr := hdr, hang := false, done := [], map := showMap st2, srv := showSrv st2, log := log, stale := showStale st2 }).mon.tbl =
         noteFailedInit m.now r.user.owner hdr (reapDying ((showMap st2).map (·.name)) tbl3) := by
       rw [e1]
       show noteFailedInit _ _ hdr (reapDying _ (scanMap cfg (nowAfter m op) op.req status hdr _ (showMap st2)).1) = _
@@ -253,9 +257,9 @@ theorem sim_append_op {cfg : Cfg} {d d' : RState} {m : Mon} {o : Obs} (hs : Sim 
       intro h hh
       rcases hE with ⟨_, _, _, _, _, hx, _⟩ | ⟨_, hx | hx⟩ <;> rw [hh] at hx <;> first | (cases hx; rfl) | cases hx
     -- the three shapes of the final table
-    have hshape : (monStep cfg m op { status := status, hdr := hdr, hang := false, done := [], map := showMap st2, srv := showSrv st2, log := log }).mon.tbl = tblR ∨
+    have hshape : (monStep cfg m op { status := status, hdr := hdr, hang := false, done := [], map := showMap st2, srv := showSrv st2, log := log, stale := showStale st2 }).mon.tbl = tblR ∨
         (monFind tblR (sname d.st.next) = none ∧
-          (monStep cfg m op { status := status, hdr := hdr, hang := false, done := [], map := showMap st2, srv := showSrv st2, log := log }).mon.tbl =
+          (monStep cfg m op { status := status, hdr := hdr, hang := false, done := [], map := showMap st2, srv := showSrv st2, log := log, stale := showStale st2 }).mon.tbl =
             tblR ++ [{ name := sname d.st.next, owner := r.user.owner, life := .dead, posts := 0, idleSince := m.now }]) := by
       rw [hfin]
       unfold noteFailedInit
@@ -328,6 +332,7 @@ theorem sim_append_op {cfg : Cfg} {d d' : RState} {m : Mon} {o : Obs} (hs : Sim 
         cases hkind : p.kind with
         | slow a b => rw [hkind] at hsh; exact hsh
         | run a b => rw [hkind] at hsh; exact hsh
+        | upl a b c => rw [hkind] at hsh; exact hsh
         | del i f =>
           rw [hkind] at hsh
           have hi := hs.pok.minted p hp i (by simp [sidOf, hkind])
